@@ -7,6 +7,9 @@
 #include "common.hpp"
 
 #include <algorithm>
+#include <forward_list>
+#include <iterator>
+#include <list>
 #include <memory>
 #include <stack>
 #include <string>
@@ -14,6 +17,7 @@
 #include <vector>
 
 #include <etl/inplace_vector.hpp>
+#include <etl/iterator.hpp>
 #include <etl/stack.hpp>
 #include <etl/vector.hpp>
 
@@ -120,6 +124,116 @@ template <typename T> inline std::vector<T> mkvec(std::vector<i64> const& xs)
     return r;
 }
 
+// ---------------------------------------------------------------------------------------------------------------------
+// source ranges of every iterator category for the range members of static_vector (insert / move_insert / assign /
+// range constructor are templates over the iterator type and branch on its category):
+//   kind 0  T*                                   pointer          (ordering + capacity precondition)
+//   kind 1  etl::reverse_iterator<T*>            random access    (capacity precondition; the array holds xs backwards)
+//   kind 2  BidiIt<T>                            bidirectional    (no up-front precondition)
+//   kind 3  FwdIt<T>                             forward
+//   kind 4  OnceIt<T>                            single-pass input: remembers how far ANY copy has advanced and flags a
+//                                                dereference of a position behind that frontier (`second-pass`)
+//   kind 5  RaIt<T>                              a random-access class type that is neither a pointer nor a reverse_iterator
+template <typename T, typename Tag>
+struct TagIt {
+    using iterator_category = Tag;
+    using value_type        = T;
+    using difference_type   = etl::ptrdiff_t;
+    using pointer           = T*;
+    using reference         = T&;
+    T* p{nullptr};
+    auto operator*() const -> T& { return *p; }
+    auto operator->() const -> T* { return p; }
+    auto operator++() -> TagIt& { ++p; return *this; }
+    auto operator++(int) -> TagIt { auto t = *this; ++p; return t; }
+    auto operator--() -> TagIt& requires(!std::is_same_v<Tag, etl::forward_iterator_tag>) { --p; return *this; }
+    auto operator--(int) -> TagIt requires(!std::is_same_v<Tag, etl::forward_iterator_tag>) { auto t = *this; --p; return t; }
+    friend auto operator==(TagIt a, TagIt b) -> bool { return a.p == b.p; }
+    friend auto operator!=(TagIt a, TagIt b) -> bool { return a.p != b.p; }
+};
+template <typename T> using BidiIt = TagIt<T, etl::bidirectional_iterator_tag>;
+template <typename T> using FwdIt  = TagIt<T, etl::forward_iterator_tag>;
+template <typename T>
+struct OnceState {
+    T* base{nullptr};
+    std::size_t frontier{0};
+    bool reread{false};
+};
+template <typename T>
+struct OnceIt {
+    using iterator_category = etl::input_iterator_tag;
+    using value_type        = T;
+    using difference_type   = etl::ptrdiff_t;
+    using pointer           = T*;
+    using reference         = T&;
+    T* p{nullptr};
+    OnceState<T>* st{nullptr};
+    auto operator*() const -> T& { if (static_cast<std::size_t>(p - st->base) < st->frontier) { st->reread = true; } return *p; }
+    auto operator++() -> OnceIt& { ++p; st->frontier = std::max(st->frontier, static_cast<std::size_t>(p - st->base)); return *this; }
+    auto operator++(int) -> OnceIt { auto t = *this; ++*this; return t; }
+    friend auto operator==(OnceIt a, OnceIt b) -> bool { return a.p == b.p; }
+    friend auto operator!=(OnceIt a, OnceIt b) -> bool { return a.p != b.p; }
+};
+template <typename T>
+struct RaIt {
+    using iterator_category = etl::random_access_iterator_tag;
+    using value_type        = T;
+    using difference_type   = etl::ptrdiff_t;
+    using pointer           = T*;
+    using reference         = T&;
+    T* p{nullptr};
+    auto operator*() const -> T& { return *p; }
+    auto operator->() const -> T* { return p; }
+    auto operator[](difference_type n) const -> T& { return p[n]; }
+    auto operator++() -> RaIt& { ++p; return *this; }
+    auto operator++(int) -> RaIt { auto t = *this; ++p; return t; }
+    auto operator--() -> RaIt& { --p; return *this; }
+    auto operator--(int) -> RaIt { auto t = *this; --p; return t; }
+    auto operator+=(difference_type n) -> RaIt& { p += n; return *this; }
+    auto operator-=(difference_type n) -> RaIt& { p -= n; return *this; }
+    friend auto operator+(RaIt a, difference_type n) -> RaIt { return RaIt{a.p + n}; }
+    friend auto operator+(difference_type n, RaIt a) -> RaIt { return RaIt{a.p + n}; }
+    friend auto operator-(RaIt a, difference_type n) -> RaIt { return RaIt{a.p - n}; }
+    friend auto operator-(RaIt a, RaIt b) -> difference_type { return a.p - b.p; }
+    friend auto operator==(RaIt a, RaIt b) -> bool { return a.p == b.p; }
+    friend auto operator!=(RaIt a, RaIt b) -> bool { return a.p != b.p; }
+    friend auto operator<(RaIt a, RaIt b) -> bool { return a.p < b.p; }
+    friend auto operator<=(RaIt a, RaIt b) -> bool { return a.p <= b.p; }
+    friend auto operator>(RaIt a, RaIt b) -> bool { return a.p > b.p; }
+    friend auto operator>=(RaIt a, RaIt b) -> bool { return a.p >= b.p; }
+};
+static_assert(etl::detail::RandomAccessIterator<etl::reverse_iterator<int*>> && etl::detail::RandomAccessIterator<RaIt<int>>);
+static_assert(etl::detail::InputIterator<BidiIt<int>> && !etl::detail::RandomAccessIterator<BidiIt<int>>);
+static_assert(etl::detail::InputIterator<FwdIt<int>> && !etl::detail::RandomAccessIterator<FwdIt<int>>);
+static_assert(etl::detail::InputIterator<OnceIt<int>> && !etl::detail::ForwardIterator<OnceIt<int>>);
+
+// calls f(first, last) with the range xs given by iterators of kind k; false = no such kind
+template <typename T, typename F>
+static bool with_range(i64 kind, std::vector<i64> const& xs, Out& o, F&& f)
+{
+    auto src = mkvec<T>(xs);
+    auto* b  = src.data();
+    auto* e  = src.data() + src.size();
+    switch (kind) {
+    case 0: f(b, e); return true;
+    case 1: {
+        std::reverse(src.begin(), src.end());
+        f(etl::reverse_iterator<T*>(e), etl::reverse_iterator<T*>(b));
+        return true;
+    }
+    case 2: f(BidiIt<T>{b}, BidiIt<T>{e}); return true;
+    case 3: f(FwdIt<T>{b}, FwdIt<T>{e}); return true;
+    case 4: {
+        OnceState<T> st{b, 0, false};
+        f(OnceIt<T>{b, &st}, OnceIt<T>{e, &st});
+        if (st.reread) { o.tok("second-pass"); }
+        return true;
+    }
+    case 5: f(RaIt<T>{b}, RaIt<T>{e}); return true;
+    default: return false;
+    }
+}
+
 struct Step {
     std::string op;
     int t{0};
@@ -177,8 +291,42 @@ static void sv_step(Step const& s, Vec (&v)[2], Out& o)
     auto A = [&](int i) { return s.a[static_cast<std::size_t>(i)]; };
     auto val = [&](int i) { return mk<T>(static_cast<int>(A(i))); };
     auto unsupported = [&] { o.tok("unsupported-step"); };
-    if (op == "pb") { x.push_back(val(0)); }
+    if (op == "pb") {
+        // push_back(U&&) is one template: even values go in as an lvalue (U = T const&), odd ones as an rvalue
+        if constexpr (copyable) { if (A(0) % 2 == 0) { T const c = val(0); x.push_back(c); } else { x.push_back(val(0)); } }
+        else { x.push_back(val(0)); }
+    }
     else if (op == "eb") { x.emplace_back(mkarg<T>(static_cast<int>(A(0)))); }
+    else if (op == "ebr") {
+        // emplace_back returns a reference to the new element (std::vector since C++17)
+        auto& r = x.emplace_back(mkarg<T>(static_cast<int>(A(0))));
+        static_assert(std::is_same_v<decltype(x.emplace_back(mkarg<T>(0))), T&>);
+        o.num(&r - x.data()).num(get(r));
+        if (&r != &x.back()) { o.tok("bad-ref"); }
+    }
+    // the argument is an element of the vector itself (std::vector must accept that for these five members)
+    else if (op == "pba") { if constexpr (copyable) { x.push_back(x[static_cast<std::size_t>(A(0))]); } else { unsupported(); } }
+    else if (op == "eba") { if constexpr (copyable) { x.emplace_back(x[static_cast<std::size_t>(A(0))]); } else { unsupported(); } }
+    else if (op == "ica") { if constexpr (copyable) { o.num(x.insert(at_off(x.begin(), A(0)), x[static_cast<std::size_t>(A(1))]) - x.begin()); } else { unsupported(); } }
+    else if (op == "ina") { if constexpr (copyable) { o.num(x.insert(at_off(x.begin(), A(0)), static_cast<std::size_t>(A(1)), x[static_cast<std::size_t>(A(2))]) - x.begin()); } else { unsupported(); } }
+    else if (op == "rva") { if constexpr (copyable) { x.resize(static_cast<std::size_t>(A(0)), x[static_cast<std::size_t>(A(1))]); } else { unsupported(); } }
+    else if (op == "irk") {
+        if constexpr (copyable) {
+            if (!with_range<T>(A(0), s.xs, o, [&](auto f, auto l) { o.num(x.insert(at_off(x.begin(), A(1)), f, l) - x.begin()); })) { unsupported(); }
+        } else { unsupported(); }
+    }
+    else if (op == "mik") {
+        if (!with_range<T>(A(0), s.xs, o, [&](auto f, auto l) { o.num(x.move_insert(at_off(x.begin(), A(1)), f, l) - x.begin()); })) { unsupported(); }
+    }
+    else if (op == "ask") {
+        if constexpr (copyable) { if (!with_range<T>(A(0), s.xs, o, [&](auto f, auto l) { x.assign(f, l); })) { unsupported(); } }
+        else { unsupported(); }
+    }
+    else if (op == "ctk") {
+        if constexpr (copyable) {
+            if (!with_range<T>(A(0), s.xs, o, [&](auto f, auto l) { Vec tmp(f, l); print_vec(o, tmp); x = etl::move(tmp); })) { unsupported(); }
+        } else { unsupported(); }
+    }
     else if (op == "pop") { x.pop_back(); }
     else if (op == "icr") { if constexpr (copyable) { T c = val(1); o.num(x.insert(at_off(x.begin(), A(0)), c) - x.begin()); } else { unsupported(); } }
     else if (op == "irv") { o.num(x.insert(at_off(x.begin(), A(0)), val(1)) - x.begin()); }
@@ -272,6 +420,13 @@ static void st_step(Step const& s, St (&v)[2], Out& o)
     if (op == "pb") { if constexpr (copyable) { T c = val(0); x.push(c); } else { unsupported(); } }
     else if (op == "pbr") { x.push(val(0)); }
     else if (op == "eb") { x.emplace(mkarg<T>(static_cast<int>(A(0)))); }
+    else if (op == "ebr") {
+        // std::stack::emplace returns what c.emplace_back returns: a reference to the new top
+        decltype(auto) r = x.emplace(mkarg<T>(static_cast<int>(A(0))));
+        static_assert(std::is_same_v<decltype(r), T&>);
+        o.num(&r - x.cont().data()).num(get(r));
+        if (&r != &x.top()) { o.tok("bad-ref"); }
+    }
     else if (op == "pop") { x.pop(); }
     else if (op == "bk") { o.num(get(x.top())); if (&cx.top() != &x.top()) { o.tok("const-mismatch"); } }
     else if (op == "sbk") { x.top() = val(0); }
@@ -399,6 +554,7 @@ static void run_stack(std::vector<Step> const& steps, Out& impl)
         using C  = etl::static_vector<T, N>;
         using St = OpenStack<C>;
         static_assert(std::is_copy_assignable_v<etl::stack<T, C>> == std::is_copy_constructible_v<T> && std::is_move_assignable_v<etl::stack<T, C>>);
+        static_assert(std::is_same_v<decltype(etl::stack(std::declval<C>())), etl::stack<T, C>>);   // deduction guide stack(Container)
         St v[2];
         run_steps(steps, impl, [&](Step const& s, Out& o) {
             st_step<St, C, T>(s, v, o);
@@ -550,10 +706,12 @@ static std::vector<Step> parse(Toks& in)
         if (is({"swp", "rel", "fsw"})) { }
         else {
             s.t = static_cast<int>(in.num());
-            if (is({"pb", "pbr", "eb", "era", "rsz", "eif", "erv", "at", "tpb", "upb", "tem", "tpr", "uem", "upr", "rit", "sfr", "sbk", "ctn"})) { need(1); }
-            else if (is({"icr", "irv", "emp", "err", "rsv", "asn", "sat", "ctv", "cpi", "fil"})) { need(2); }
-            else if (is({"inn"})) { need(3); }
+            if (is({"pb", "pbr", "eb", "ebr", "pba", "eba", "era", "rsz", "eif", "erv", "at", "tpb", "upb", "tem", "tpr", "uem", "upr", "rit", "sfr", "sbk", "ctn"})) { need(1); }
+            else if (is({"icr", "irv", "emp", "err", "rsv", "asn", "sat", "ctv", "cpi", "fil", "ica", "rva"})) { need(2); }
+            else if (is({"inn", "ina"})) { need(3); }
             else if (is({"irg", "mir"})) { need(1); s.xs = in.list(); }
+            else if (is({"irk", "mik"})) { need(2); s.xs = in.list(); }     // kind, position, range
+            else if (is({"ask", "ctk"})) { need(1); s.xs = in.list(); }     // kind, range
             else if (is({"asr", "ctr", "cta", "fcc", "fcr"})) { s.xs = in.list(); }
         }
         steps.push_back(s);
@@ -577,6 +735,35 @@ static void ref_mutate(RV& w, int x, std::size_t cap)
     if (!w.empty()) { w[0] = x; w.pop_back(); } else if (cap > 0) { w.push_back(x); }
 }
 
+// the same source kinds for the reference leg, from the standard library's own iterator zoo
+struct StdIn {
+    using iterator_category = std::input_iterator_tag;
+    using value_type        = int;
+    using difference_type   = std::ptrdiff_t;
+    using pointer           = int const*;
+    using reference         = int const&;
+    int const* p{nullptr};
+    auto operator*() const -> int const& { return *p; }
+    auto operator++() -> StdIn& { ++p; return *this; }
+    auto operator++(int) -> StdIn { auto t = *this; ++p; return t; }
+    friend auto operator==(StdIn a, StdIn b) -> bool { return a.p == b.p; }
+    friend auto operator!=(StdIn a, StdIn b) -> bool { return a.p != b.p; }
+};
+template <typename F>
+static bool with_std_range(i64 kind, std::vector<i64> const& xs, F&& f)
+{
+    RV src(xs.begin(), xs.end());
+    switch (kind) {
+    case 0: f(src.data(), src.data() + src.size()); return true;
+    case 1: std::reverse(src.begin(), src.end()); f(src.rbegin(), src.rend()); return true;
+    case 2: { std::list<int> l(src.begin(), src.end()); f(l.begin(), l.end()); return true; }
+    case 3: { std::forward_list<int> l(src.begin(), src.end()); f(l.begin(), l.end()); return true; }
+    case 4: f(StdIn{src.data()}, StdIn{src.data() + src.size()}); return true;
+    case 5: f(src.begin(), src.end()); return true;
+    default: return false;
+    }
+}
+
 // ---- reference: std::vector with the documented preconditions; false = outside the domain
 static bool std_step(Step const& s, RV (&v)[2], std::size_t cap, Out& o)
 {
@@ -589,6 +776,28 @@ static bool std_step(Step const& s, RV (&v)[2], std::size_t cap, Out& o)
     auto A = [&](int i) { return s.a[static_cast<std::size_t>(i)]; };
     auto I = [&](int i) { return static_cast<int>(s.a[static_cast<std::size_t>(i)]); };
     if (op == "pb" || op == "eb" || op == "upb" || op == "uem" || op == "upr") { if (room < 1) { return false; } x.push_back(I(0)); }
+    else if (op == "ebr") { if (room < 1) { return false; } auto& r = x.emplace_back(I(0)); o.num(&r - x.data()).num(r); }
+    else if (op == "pba") { if (A(0) < 0 || A(0) >= sz || room < 1) { return false; } x.push_back(x[static_cast<std::size_t>(A(0))]); }
+    else if (op == "eba") { if (A(0) < 0 || A(0) >= sz || room < 1) { return false; } x.emplace_back(x[static_cast<std::size_t>(A(0))]); }
+    else if (op == "ica") {
+        if (A(1) < 0 || A(1) >= sz || A(0) < 0 || A(0) > sz || room < 1) { return false; }
+        { auto it = x.insert(x.begin() + A(0), x[static_cast<std::size_t>(A(1))]); o.num(it - x.begin()); }
+    } else if (op == "ina") {
+        if (A(2) < 0 || A(2) >= sz || A(0) < 0 || A(0) > sz || A(1) < 0 || A(1) > room) { return false; }
+        { auto it = x.insert(x.begin() + A(0), static_cast<std::size_t>(A(1)), x[static_cast<std::size_t>(A(2))]); o.num(it - x.begin()); }
+    } else if (op == "rva") {
+        if (A(1) < 0 || A(1) >= sz || A(0) < 0 || A(0) > icap) { return false; }
+        x.resize(static_cast<std::size_t>(A(0)), x[static_cast<std::size_t>(A(1))]);
+    }
+    else if (op == "irk" || op == "mik") {
+        if (A(1) < 0 || A(1) > sz || static_cast<i64>(s.xs.size()) > room) { return false; }
+        if (!with_std_range(A(0), s.xs, [&](auto f, auto l) { auto it = x.insert(x.begin() + A(1), f, l); o.num(it - x.begin()); })) { return false; }
+    }
+    else if (op == "ask") { if (s.xs.size() > cap) { return false; } if (!with_std_range(A(0), s.xs, [&](auto f, auto l) { x.assign(f, l); })) { return false; } }
+    else if (op == "ctk") {
+        if (s.xs.size() > cap) { return false; }
+        if (!with_std_range(A(0), s.xs, [&](auto f, auto l) { RV tmp(f, l); print_std(o, tmp); x = std::move(tmp); })) { return false; }
+    }
     else if (op == "pop") { if (sz == 0) { return false; } x.pop_back(); }
     else if (op == "icr" || op == "irv" || op == "emp") {
         if (A(0) < 0 || A(0) > sz || room < 1) { return false; }
@@ -667,6 +876,7 @@ static bool std_stack_step(Step const& s, RefStack (&v)[2], std::size_t cap, Out
     if (op == "pb") { if (room < 1) { return false; } int c = I(0); x.push(c); }
     else if (op == "pbr") { if (room < 1) { return false; } x.push(I(0)); }
     else if (op == "eb") { if (room < 1) { return false; } x.emplace(I(0)); }
+    else if (op == "ebr") { if (room < 1) { return false; } decltype(auto) r = x.emplace(I(0)); o.num(&r - x.cont().data()).num(r); }
     else if (op == "pop") { if (sz == 0) { return false; } x.pop(); }
     else if (op == "bk") { if (sz == 0) { return false; } o.num(x.top()); }
     else if (op == "sbk") { if (sz == 0) { return false; } x.top() = I(0); }
